@@ -29,8 +29,10 @@ LA, NU, IN, SF, ST, UT, UN, LM = ("src/Linear_Algebra.cpp", "src/Numerics.cpp", 
 N, I, Q, B = "Nat", "Int", "Rat", "Bool"
 
 
-def E(name, file, anchor, k, params, atoms):
-    return dict(name=name, file=file, anchor=anchor, k=k, params=params, atoms=atoms)
+def E(name, file, anchor, k, params, atoms, pick=None):
+    """k: index of the `if(` after the anchor (None: the Check_For_Error call); with `pick` the index counts only the
+    `if`s whose condition mentions that operand text (robust against early returns inserted before the guard)"""
+    return dict(name=name, file=file, anchor=anchor, k=k, params=params, atoms=atoms, pick=pick)
 
 
 # name (Lean identifier suffix), file, anchor, index of the `if(` after the anchor, Lean parameters (name, type) in the
@@ -83,6 +85,7 @@ TABLE = [
     E("Factorial", SF, r"^double Factorial\(unsigned int n\)", 0, [("n", N)], {"n": ("n", N)}),
     E("Binomial_Coefficient", SF, r"^double Binomial_Coefficient\(int n, int k\)", 0, [("n", I), ("k", I)], {"n": ("n", I), "k": ("k", I)}),
     E("GammaLn", SF, r"^double GammaLn\(double x\)", 0, [("x", Q)], {"x": ("x", Q)}),
+    E("Gamma", SF, r"^double Gamma\(double x\)", 0, [("x", Q)], {"x": ("x", Q)}),
     E("GammaQ", SF, r"^double GammaQ\(double x, double a\)", 0, [("x", Q), ("a", Q)], {"x": ("x", Q), "a": ("a", Q)}),
     E("Inv_GammaP", SF, r"^double Inv_GammaP\(double p, double a\)", 0, [("a", Q)], {"a": ("a", Q)}),
     E("Round_digits", SF, r"^double Round\(double N, unsigned int digits\)", 0, [("digits", N)], {"digits": ("digits", N), "digits_max": ("gen_Round_digits_max", N)}),
@@ -97,17 +100,32 @@ TABLE = [
     E("CDF_Exponential", ST, r"^double CDF_Exponential\(", 0, [("mean", Q)], {"mean": ("mean", Q)}),
     E("PDF_Maxwell_Boltzmann", ST, r"^double PDF_Maxwell_Boltzmann\(", 0, [("a", Q)], {"a": ("a", Q)}),
     E("CDF_Maxwell_Boltzmann", ST, r"^double CDF_Maxwell_Boltzmann\(", 0, [("a", Q)], {"a": ("a", Q)}),
+    E("PDF_Uniform", ST, r"^double PDF_Uniform\(", 0, [("x_min", Q), ("x_max", Q)], {"x_min": ("x_min", Q), "x_max": ("x_max", Q)}),
+    E("CDF_Uniform", ST, r"^double CDF_Uniform\(", 0, [("x_min", Q), ("x_max", Q)], {"x_min": ("x_min", Q), "x_max": ("x_max", Q)}),
+    E("PDF_Gauss", ST, r"^double PDF_Gauss\(double x, double mu, double sigma\)", 0, [("sigma", Q)], {"sigma": ("sigma", Q)}),
+    E("CDF_Gauss", ST, r"^double CDF_Gauss\(", 0, [("sigma", Q)], {"sigma": ("sigma", Q)}),
+    E("Quantile_Gauss", ST, r"^double Quantile_Gauss\(", 0, [("sigma", Q)], {"sigma": ("sigma", Q)}),
+    E("PDF_Gauss_2D", ST, r"^double PDF_Gauss_2D\(", 0, [("sigma_x", Q), ("sigma_y", Q)], {"sigma.first": ("sigma_x", Q), "sigma.second": ("sigma_y", Q)}),
+    E("PDF_Chi_Square", ST, r"^double PDF_Chi_Square\(", 0, [("dof", Q)], {"dof": ("dof", Q)}),
+    E("CDF_Chi_Square", ST, r"^double CDF_Chi_Square\(", 0, [("dof", Q)], {"dof": ("dof", Q)}),
+    E("Log_Likelihood_Poisson", ST, r"^double Log_Likelihood_Poisson\(", 0, [("pred", Q), ("bkg", Q)], {"N_prediction": ("pred", Q), "expected_background": ("bkg", Q)}),
+    E("Sample_Uniform", ST, r"^double Sample_Uniform\(", 0, [("x_min", Q), ("x_max", Q)], {"x_min": ("x_min", Q), "x_max": ("x_max", Q)}),
+    E("Sample_Gauss", ST, r"^double Sample_Gauss\(", 0, [("sd", Q)], {"standard_deviation": ("sd", Q)}),
+    E("Sample_Poisson", ST, r"^unsigned int Sample_Poisson\(", 0, [("mu", Q)], {"expectation_value": ("mu", Q)}),
+    E("Inv_GammaP_probability", SF, r"^double Inv_GammaP\(double p, double a\)", 1, [("p", Q)], {"p": ("p", Q)}),
+    E("Inv_GammaQ_probability", SF, r"^double Inv_GammaQ\(double q, double a\)", 0, [("q", Q)], {"q": ("q", Q)}),
+    E("Locate_Closest_Location_empty", UT, r"^unsigned int Locate_Closest_Location\(", 0, [("n", N)], {"sorted_list.empty()": ("decide (n = 0)", B), "sorted_list.size()": ("n", N)}),
     E("Log_Likelihood_Poisson_Binned", ST, r"^double Log_Likelihood_Poisson_Binned\(", 1, [("n_obs", N), ("n_bins", N), ("n_bkg", N)],
       {"N_observed_binned.size()": ("n_obs", N), "N_bins": ("n_bins", N), "N_prediction_binned.size()": ("n_bins", N), "expected_background_binned.size()": ("n_bkg", N)}),
     E("Sample_Metropolis_unbounded", ST, r"^std::vector<double> Sample_Metropolis\(", 0, [("n", N)], {"domain.size()": ("n", N)}),
     E("Sample_Metropolis_bounded", ST, r"^std::vector<double> Sample_Metropolis\(", 1, [("n", N)], {"domain.size()": ("n", N)}),
     E("Sample_Metropolis_2D_unbounded", ST, r"^std::vector<std::pair<double, double>> Sample_Metropolis_2D\(", 0, [("n", N)], {"domain.size()": ("n", N)}),
     E("Sample_Metropolis_2D_bounded", ST, r"^std::vector<std::pair<double, double>> Sample_Metropolis_2D\(", 1, [("n", N)], {"domain.size()": ("n", N)}),
-    E("Transpose_Lists_row", LM, r"^extern std::vector<std::vector<T>> Transpose_Lists\(const std::vector<std::vector<T>>& lists\)", 0, [("row_size", N), ("m", N)], {"lists[i].size()": ("row_size", N), "M": ("m", N)}),
+    E("Transpose_Lists_row", LM, r"^extern std::vector<std::vector<T>> Transpose_Lists\(const std::vector<std::vector<T>>& lists\)", 0, [("row_size", N), ("m", N)], {"lists[i].size()": ("row_size", N), "M": ("m", N)}, pick="lists[i].size()"),
     E("In_Units_row", UN, r"^std::vector<std::vector<double>> In_Units\(const std::vector<std::vector<double>>& quantities, std::vector<double> dimensions", 0,
       [("row_size", N), ("n_dims", N)], {"quantities[i].size()": ("row_size", N), "dimensions.size()": ("n_dims", N)}),
-    E("Export_Table_row", UT, r"^void Export_Table\(", 1, [("n_dims", N), ("columns", N)], {"dimensions.size()": ("n_dims", N), "columns": ("columns", N), "dimensions.empty()": ("decide (n_dims = 0)", B), "data[line].size()": ("columns", N)}),
-    E("Import_Table_columns", UT, r"^std::vector<std::vector<double>> Import_Table\(", 1, [("n_dims", N), ("columns", N)], {"dimensions.size()": ("n_dims", N), "columns": ("columns", N), "dimensions.empty()": ("decide (n_dims = 0)", B)}),
+    E("Export_Table_row", UT, r"^void Export_Table\(", 0, [("n_dims", N), ("columns", N)], {"dimensions.size()": ("n_dims", N), "columns": ("columns", N), "dimensions.empty()": ("decide (n_dims = 0)", B), "data[line].size()": ("columns", N)}, pick="dimensions.size()"),
+    E("Import_Table_columns", UT, r"^std::vector<std::vector<double>> Import_Table\(", 0, [("n_dims", N), ("columns", N)], {"dimensions.size()": ("n_dims", N), "columns": ("columns", N), "dimensions.empty()": ("decide (n_dims = 0)", B)}, pick="dimensions.size()"),
 ]
 # numeric constants a guard refers to by name: (Lean name, type, file, regex with one group)
 CONSTANTS = [
@@ -173,8 +191,12 @@ def extract_condition(text, e):
         if not c:
             raise ParseError("fewer than %d if-statements after the anchor" % (e["k"] + 1))
         j = _balanced(text, c.end())
+        cond = re.sub(r"\s+", " ", text[c.end():j - 1]).strip()
+        if e.get("pick") and e["pick"] not in cond:
+            pos = j
+            continue
         if k == 0:
-            return re.sub(r"\s+", " ", text[c.end():j - 1]).strip(), text[m.end():c.start()]
+            return cond, text[m.end():c.start()]
         k -= 1
         pos = j
 
